@@ -252,6 +252,11 @@ class MDAQuasiNewton(BaseMDARoot):
 
         self._update_local_data_from_array(y_opt.x)
 
+        # The last point evaluated by the root-finding algorithm may differ from
+        # the solution (e.g. a finite-difference perturbation): compute the
+        # non-coupling outputs at the solution.
+        self._execute_disciplines_and_update_local_data()
+
         if self.settings.method in self._METHODS_SUPPORTING_CALLBACKS:
             self.io.update_output_data({
                 self.NORMALIZED_RESIDUAL_NORM: array([self.normed_residual]),
